@@ -187,6 +187,25 @@ func zzvShape(res *vrep.Result, out zzvNameOut, desc string) {
 			fail("name-prefix", "name starts with %q", lines[0])
 		}
 		// At most 16 frames follow the prefix (a program counter inside inlined calls counts once per call).
+		// every frame line is whole, unless the name is marked as cut to the size limit (then only the last
+		// frame line before the marker may be incomplete)
+		marked := strings.HasSuffix(out.name, "\ntruncated\n")
+		fl := lines[1:]
+		if marked && len(fl) >= 2 {
+			fl = fl[:len(fl)-2] // "truncated" and the empty string after the final newline
+			if len(fl) > 0 {
+				fl = fl[:len(fl)-1] // the possibly incomplete last frame
+			}
+		}
+		for _, l := range fl {
+			if !zzvFrameLine.MatchString(l) {
+				fail("partial-frame-unmarked", "frame line %q is not a whole frame and the name carries no truncation marker", l)
+				break
+			}
+		}
+		if marked {
+			lines = lines[:len(lines)-2]
+		}
 		if len(lines)-1 > 16 {
 			fail("too-many-frames", "%d frame lines", len(lines)-1)
 		}
@@ -283,6 +302,26 @@ func TestVerifC14(t *testing.T) {
 			}
 		}
 	}
+	// (A2) frames whose lines are so long that the size limit of counter names cuts into the first 16 frames:
+	// the name must either consist of whole frames or carry the truncation marker.
+	for _, n := range []int{12, 15, 16, 17, 20, 30} {
+		if !mine() {
+			continue
+		}
+		var frames []zzvFrame
+		for i, pc := range zzvLongNamePCs(n) {
+			frames = append(frames, mkFrame(i, pc))
+		}
+		tr := base(frames, sentinel())
+		out := zzvName(tr.render())
+		res.Evaluations++
+		desc := fmt.Sprintf("A2: %d frames of a function with a 248-byte name", n)
+		zzvShape(res, out, desc)
+		if out.err != nil || out.panicked != "" {
+			res.Violate("name-differs-from-pcs", fmt.Sprintf("genuine traceback rejected: %v [%s]", out.err, desc), nil)
+		}
+		res.Class(fmt.Sprintf("A2/frames=%d/marked=%v", n, strings.HasSuffix(out.name, "\ntruncated\n")))
+	}
 	// (B) free-text substitution.
 	// The runtime indents the continuation lines of a multi-line panic message with a tab, so
 	// that a message cannot forge a goroutine header; indented header-like text is free text.
@@ -349,7 +388,9 @@ func TestVerifC14(t *testing.T) {
 				}
 				subst(fmt.Sprintf("args of frame %d -> alt%d", i, ai), func(t *zzvTrace) { t.frames[i].args = strings.ReplaceAll(alt, "\n", " ") })
 				subst(fmt.Sprintf("file of frame %d -> alt%d", i, ai), func(t *zzvTrace) { t.frames[i].file = "/PII/" + strings.ReplaceAll(alt, "\t", "") })
-				subst(fmt.Sprintf("file of frame %d -> path with pc= inside (alt%d)", i, ai), func(t *zzvTrace) { t.frames[i].file = "/home/PII/my pc=1 dir/" + strings.ReplaceAll(alt, "\t", "") + "/main.go" })
+				subst(fmt.Sprintf("file of frame %d -> path with pc= inside (alt%d)", i, ai), func(t *zzvTrace) {
+					t.frames[i].file = "/home/PII/my pc=1 dir/" + strings.ReplaceAll(alt, "\t", "") + "/main.go"
+				})
 			}
 			for i := range b0.message {
 				i := i
@@ -540,4 +581,27 @@ func zzvRealCrashes(res *vrep.Result) {
 		res.Class("D/" + kind)
 		res.Sample(10, map[string]any{"leg": "real-crash", "kind": kind, "name": dec})
 	}
+}
+
+// A recursive function with a very long name: 16 frames of it exceed the 4096-byte limit of counter names, so
+// the size cut of EncodeStack falls inside one of the first 16 frame lines.
+//
+//go:noinline
+func zzvRecursiveFunctionWithAVeryLongNameSoThatSixteenFramesOfItDoNotFitIntoTheFourKilobyteLimitOfCounterNamesAndTheSizeCutOfEncodeStackFallsInsideOneOfTheFirstSixteenFrameLinesWhichIsWhatThisCaseIsAboutPaddingPaddingPaddingPaddingPaddingPaddingPadding(depth int, out *[]uintptr) {
+	if depth == 0 {
+		pcs := make([]uintptr, 64)
+		n := runtime.Callers(1, pcs)
+		*out = append(*out, pcs[:n]...)
+		return
+	}
+	zzvRecursiveFunctionWithAVeryLongNameSoThatSixteenFramesOfItDoNotFitIntoTheFourKilobyteLimitOfCounterNamesAndTheSizeCutOfEncodeStackFallsInsideOneOfTheFirstSixteenFrameLinesWhichIsWhatThisCaseIsAboutPaddingPaddingPaddingPaddingPaddingPaddingPadding(depth-1, out)
+}
+
+func zzvLongNamePCs(n int) []uintptr {
+	var out []uintptr
+	zzvRecursiveFunctionWithAVeryLongNameSoThatSixteenFramesOfItDoNotFitIntoTheFourKilobyteLimitOfCounterNamesAndTheSizeCutOfEncodeStackFallsInsideOneOfTheFirstSixteenFrameLinesWhichIsWhatThisCaseIsAboutPaddingPaddingPaddingPaddingPaddingPaddingPadding(n, &out)
+	if len(out) > n {
+		out = out[:n]
+	}
+	return out
 }
